@@ -524,6 +524,10 @@ func main() {
 			genScale(g)
 			// exported functions no generator called before round 7 (more.go)
 			genReverse(g)
+			genDedup(g)
+			genSelect(g)
+			genMatchingKeys(g)
+			genExtra(g) // the small int lines Z V D L M K (MatchingKeys with the map order as an oracle)
 			// random, larger, duplicate values
 			rnd := func(maxN, maxV int) []int {
 				n := g.R.Intn(maxN + 1)
